@@ -301,6 +301,143 @@ def ix_(*seqs):
     return tuple(out)
 
 
+# ---- further numpy functions (not used by the pinned repository; modelled so that a semantics-preserving refactoring
+#      that uses them stays within reach).  Each is expressed through the primitives above.
+
+def _like_shape(a):
+    if isinstance(a, SymNDArray):
+        return tuple(a.shape)
+    return ()
+
+
+def zeros_like(a, dtype=None):
+    return zeros(_like_shape(a), dtype)
+
+
+def ones_like(a, dtype=None):
+    return ones(_like_shape(a), dtype)
+
+
+def full(shape, fill_value, dtype=None):
+    return zeros(shape, dtype) + fill_value
+
+
+def full_like(a, fill_value, dtype=None):
+    return zeros(_like_shape(a), dtype) + fill_value
+
+
+def _binop(op):
+    def f(a, b, *extra, **kw):
+        _no_out(op.__name__, extra, kw)
+        return op(a, b)
+    return f
+
+
+def negative(a):
+    return -a
+
+
+def square(a):
+    return a * a
+
+
+def power(a, b):
+    return a ** b
+
+
+def reciprocal(a):
+    return 1.0 / a
+
+
+def clip(a, lo, hi):
+    return minimum(maximum(a, lo), hi)
+
+
+def concatenate(items, axis=0):
+    items = list(items)
+    if all(isinstance(it, SymNDArray) and it.ndim == 1 for it in items) and axis in (0, -1):
+        return hstack(items)
+    if all(isinstance(it, SymNDArray) for it in items) and len({it.ndim for it in items}) == 1:
+        nd = items[0].ndim
+        return concat_axis(items, axis % nd)
+    raise OutOfReach('numpy.concatenate of these operands is not modelled')
+
+
+def diff(a, n=1, axis=-1):
+    if n != 1 or not isinstance(a, SymNDArray):
+        raise OutOfReach('numpy.diff(n=%r) is not modelled' % (n,))
+    ax = axis % a.ndim
+    hi = [slice(None)] * a.ndim
+    lo = [slice(None)] * a.ndim
+    hi[ax] = slice(1, None)
+    lo[ax] = slice(0, -1)
+    return a[tuple(hi)] - a[tuple(lo)]
+
+
+def squeeze(a, axis=None):
+    if not isinstance(a, SymNDArray):
+        return a
+    if axis is not None:
+        raise OutOfReach('numpy.squeeze(axis=...) is not modelled')
+    idx = []
+    for d in a.shape:
+        one = CTX.decide(I(d) == 1)
+        idx.append(0 if one else slice(None))
+    return a[tuple(idx)]
+
+
+def flip(a, axis=None):
+    if not isinstance(a, SymNDArray) or axis is None:
+        raise OutOfReach('numpy.flip without axis is not modelled')
+    ax = axis % a.ndim
+    snap = a.snap()
+    n = I(a.shape[ax])
+
+    def fn(idx):
+        j = list(idx)
+        j[ax] = n - 1 - I(idx[ax])
+        return snap(tuple(j))
+    return SymNDArray.from_fn(tuple(a.shape), fn, a.kind if hasattr(a, 'kind') else 'real', origin='flip')
+
+
+def pad(a, pad_width, mode='constant', **kw):
+    if not isinstance(a, SymNDArray) or a.ndim != 1 or pad_width != 1 or kw:
+        raise OutOfReach('numpy.pad is modelled for 1-D arrays and pad_width=1 only')
+    if mode == 'edge':
+        return hstack([a[0], a, a[-1]])
+    if mode == 'reflect':
+        return hstack([a[1], a, a[-2]])
+    if mode == 'constant':
+        return hstack([0.0, a, 0.0])
+    raise OutOfReach('numpy.pad(mode=%r) is not modelled' % (mode,))
+
+
+def atleast_1d(a):
+    if isinstance(a, SymNDArray) and a.ndim >= 1:
+        return a
+    return array([a]) if not isinstance(a, SymNDArray) else reshape(a, (1,))
+
+
+def shape_(a):
+    return tuple(a.shape) if isinstance(a, SymNDArray) else ()
+
+
+def ndim_(a):
+    return a.ndim if isinstance(a, SymNDArray) else 0
+
+
+EXTRA_NP = None
+
+
+def _extra_np():
+    import operator
+    return dict(zeros_like=zeros_like, ones_like=ones_like, full=full, full_like=full_like,
+                add=_binop(operator.add), subtract=_binop(operator.sub), multiply=_binop(operator.mul),
+                divide=_binop(operator.truediv), true_divide=_binop(operator.truediv), negative=negative, square=square,
+                power=power, reciprocal=reciprocal, clip=clip, concatenate=concatenate, diff=diff, squeeze=squeeze,
+                flip=flip, pad=pad, atleast_1d=atleast_1d, shape=shape_, ndim=ndim_, absolute=abs_, fabs=abs_)
+
+
 class _NS:
     """attribute container standing in for the numpy module"""
 
@@ -315,6 +452,8 @@ class _NS:
 
 def make_np():
     ns = _NS()
+    for _k, _v in _extra_np().items():
+        setattr(ns, _k, _v)
     ns.ndarray = SymNDArray
     ns.newaxis = None
     ns.pi = PI
